@@ -43,9 +43,12 @@ const (
 )
 
 type lockState struct {
-	held    bool
-	owner   *Thread
-	readers int
+	held      bool
+	owner     *Thread
+	readers   int
+	readersBy map[*Thread]int // who holds read locks (for the lock-leak oracle)
+	wwaiting  int             // writers blocked in Lock: new readers queue behind them (sync.RWMutex semantics)
+	where     string          // where the write lock was taken
 }
 
 type condState struct {
@@ -387,11 +390,16 @@ func (p *Path) lockOf(addr *value) *lockState {
 func (p *Path) mutexLock(addr *value) {
 	p.schedPoint("Lock")
 	l := p.lockOf(addr)
-	for l.held || l.readers > 0 {
-		p.block(l, "Lock")
+	if l.held || l.readers > 0 {
+		l.wwaiting++
+		for l.held || l.readers > 0 {
+			p.block(l, "Lock")
+		}
+		l.wwaiting--
 	}
 	l.held = true
 	l.owner = p.cur
+	l.where = p.where()
 }
 
 func (p *Path) mutexTryLock(addr *value) bool {
@@ -402,6 +410,7 @@ func (p *Path) mutexTryLock(addr *value) bool {
 	}
 	l.held = true
 	l.owner = p.cur
+	l.where = p.where()
 	return true
 }
 
@@ -418,10 +427,16 @@ func (p *Path) mutexUnlock(addr *value) {
 func (p *Path) rLock(addr *value) {
 	p.schedPoint("RLock")
 	l := p.lockOf(addr)
-	for l.held {
+	// a blocked Lock call excludes new readers (sync.RWMutex: "a blocked Lock call excludes new readers from
+	// acquiring the lock"), which is what makes recursive read locking deadlock-prone
+	for l.held || l.wwaiting > 0 {
 		p.block(l, "RLock")
 	}
 	l.readers++
+	if l.readersBy == nil {
+		l.readersBy = map[*Thread]int{}
+	}
+	l.readersBy[p.cur]++
 }
 
 func (p *Path) rUnlock(addr *value) {
@@ -430,7 +445,33 @@ func (p *Path) rUnlock(addr *value) {
 		panic(targetPanic{iface{v: &runtimeErr{"fatal error: sync: RUnlock of unlocked RWMutex"}}})
 	}
 	l.readers--
+	if l.readersBy[p.cur] > 0 {
+		l.readersBy[p.cur]--
+	} else {
+		for t, n := range l.readersBy { // released by another goroutine than the one that took it
+			if n > 0 {
+				l.readersBy[t]--
+				break
+			}
+		}
+	}
 	p.wake(l)
+}
+
+// leakedLock: a mutex still held at the end of the harness by a goroutine that has returned (nobody can ever
+// release it: every later Lock blocks for ever).
+func (p *Path) leakedLock() string {
+	for _, l := range p.locks {
+		if l.held && l.owner != nil && (l.owner.state == stDone || l.owner.isMain) && !l.owner.abandoned {
+			return "write lock taken at " + l.where + " by goroutine " + l.owner.name
+		}
+		for t, n := range l.readersBy {
+			if n > 0 && (t.state == stDone || t.isMain) && !t.abandoned {
+				return "read lock held by goroutine " + t.name
+			}
+		}
+	}
+	return ""
 }
 
 // ---- cond ----
